@@ -223,9 +223,11 @@ class _CGMYLevyMeasure(LevyMeasure):
         if alpha == 0:
             return scipy.special.exp1(uh)
 
-        if h == 0 and alpha < 0:
-            # finite activity: the integral down to 0 is the complete gamma integral
-            return scipy.special.gamma(-alpha) * u**alpha
+        if h == 0:
+            if alpha < 0:
+                # finite activity: the integral down to 0 is the complete gamma integral
+                return scipy.special.gamma(-alpha) * u**alpha
+            return np.inf  # infinite activity (the recursion below would give inf - inf for alpha >= 1)
 
         expmuh = np.exp(-uh)
         if alpha >= 1:
